@@ -115,7 +115,8 @@ func getVariablesList(s ast.SelectionSet) []string {
 				continue
 			}
 
-			if a.Value != nil {
+			// only variables, a literal can read like the name of one
+			if a.Value != nil && a.Value.Kind == ast.Variable {
 				args = append(args, a.Value.Raw)
 			}
 		}
@@ -166,7 +167,7 @@ func getArgumentListChildrenVariablesList(childs ast.ChildValueList) []string {
 			continue
 		}
 
-		if ch.Value != nil {
+		if ch.Value != nil && ch.Value.Kind == ast.Variable {
 			args = append(args, ch.Value.Raw)
 		}
 	}
